@@ -352,6 +352,8 @@ type Ctx struct {
 	inHint   bool
 	lambdaCache map[string]Term
 	boundNames []string
+	boundSorts map[string]Sort
+	phDepth  int
 	effCache map[string]*effects
 	defs     []Term
 	hintSeen map[string]bool
